@@ -349,11 +349,19 @@ structure Inv (l : Link) : Prop where
   rcvChild : l.rcv.childOk
   compl : ∀ d ∈ l.completed, d ∈ l.held
 
-theorem set_child (s : Ser) (c : Option Chunk) : (s.setTransmissionData c).1.child = s.child := by
+theorem set_child (s : Ser) (c : Option Chunk) :
+    (s.setTransmissionData c).1.child = s.child ∨ (s.setTransmissionData c).1.child = none := by
   unfold Ser.setTransmissionData
   cases c with
   | none => simp
-  | some c => simp only; split <;> simp
+  | some c =>
+    simp only
+    split
+    · simp
+    · simp only
+      split
+      · right; rfl
+      · left; rfl
 
 theorem Inv_init (sm rm : Mode) (sf rf : Bool) (sb rb : Nat) (h : 1 ≤ sb) : Inv (Link.init sm rm sf rf sb rb) := by
   refine ⟨⟨none, trivial, ⟨h, ?_, ?_⟩⟩, ?_, ?_⟩
@@ -401,7 +409,10 @@ theorem deliver_inv (l : Link) (h : Inv l) : Inv (l.step .deliver) := by
       rw [← hch] at hset
       obtain ⟨hret, _, hcase⟩ := hset
       have hchild' : (l.rcv.setTransmissionData (some ch)).1.childOk := by
-        intro c hc; rw [set_child] at hc; exact hchild c hc
+        intro c hc
+        rcases set_child l.rcv (some ch) with h | h
+        · rw [h] at hc; exact hchild c hc
+        · rw [h] at hc; cases hc
       by_cases hl : ch.isLast = true
       · simp only [hl, if_true] at hcase
         have hng : nextG l.snd.batch D o = none := by simp [nextG, ← hch, hl]
